@@ -627,7 +627,9 @@ class FStack(Family):
         inputs = merge(OrderedDict([(name, bint(2))]), a.inputs, b.inputs)
         if inputs is None:
             return None
-        xt = ("number-part",) if "number" in (a.tag, b.tag) else ()
+        # a part without any tensor leaf evaluates to a Number (Stack's eager rule is over Tensors only)
+        numeric = [not any(t.startswith("tensor") for t in k.tags()) and k.ground for k in (a, b)]
+        xt = ("number-part",) if "number" in (a.tag, b.tag) or any(numeric) else ()
         return E("stack", None, kids, "Stack(%r, ({0}, {1}))" % name, inputs, a.out, core=True, xtags=xt)
 
 
